@@ -103,6 +103,7 @@ func (t numType) resultBig(r string) string {
 const numericHeader = `//verif:pkg interpreter
 //verif:dump sema
 //verif:dump common
+//verif:dump values
 package PKGNAME
 
 import (
